@@ -275,7 +275,7 @@ class _Sample:
 class Recording:
     """context manager: replaces cdf/ppf/pdf/fit of every scipy.stats rv_continuous instance"""
 
-    METHODS = ("cdf", "ppf", "pdf", "fit")
+    METHODS = ("cdf", "ppf", "pdf", "fit", "nnlf")
 
     def __init__(self):
         self.calls = []
@@ -314,7 +314,9 @@ class Recording:
             if m == "fit":
                 n = (len(obj.shapes.split(",")) if obj.shapes else 0) + 2
                 return tuple(S("est", j) for j in range(n))
-            return np.full(np.shape(x), 0.25)
+            if m == "nnlf":  # likelihood of a symbolic estimate: a constant (restart loops stop at once)
+                return 0.0
+            return np.full(np.shape(x) if isinstance(x, (np.ndarray, list, tuple, float, int)) else (), 0.25)
 
         return recorder
 
@@ -455,11 +457,17 @@ def fit_rows():
                     inst._fit_mle(_Sample())
                     after = [lift(v) for v in inst.parameters.values()]
                 fits = [c for c in rec.calls if c[1] == "fit"]
-                if len(rec.calls) != len(fits) or len(fits) > 1:
-                    raise RuntimeError(f"unexpected scipy calls {[c[:2] for c in rec.calls]}")
+                # likelihood evaluations (pdf / nnlf) around the fit are not the keyword translation; several
+                # fit calls (restarts) are one translation if they pin the same slots at the same values
                 if not fits:
                     row["outcome"] = ("notCalled",)
                 else:
+                    def pins(c):
+                        return (c[0], sorted((k, show(lift(v))) for k, v in c[4].items() if k not in ("loc", "scale")))
+
+                    if any(pins(c) != pins(fits[0]) for c in fits[1:]):
+                        raise RuntimeError("fit called with different fixing keywords: "
+                                           + "; ".join(str(pins(c)) for c in fits))
                     dist, _, sample, args, kwargs = fits[0]
                     if not isinstance(sample, _Sample):
                         raise RuntimeError("fit was not handed the sample")
